@@ -127,7 +127,7 @@ theorem build_eq_render (url : Bytes) (m : Meta) :
   by_cases h1 : m.clientId.isEmpty <;> by_cases h2 : m.useIdToken <;>
     by_cases h3 : m.clientSecret.isEmpty <;> by_cases h4 : m.dcClientId.isEmpty <;>
     by_cases h5 : m.dcClientSecret.isEmpty <;>
-    simp [h1, h2, h3, h4, h5, renderG, List.append_assoc]
+    simp [h1, h2, h3, h4, h5, renderG]
 
 theorem sepParams_map (url : Bytes) (m : Meta) : (sepParams url m).map (·.2) = params url m := by
   unfold sepParams params
@@ -135,5 +135,214 @@ theorem sepParams_map (url : Bytes) (m : Meta) : (sepParams url m).map (·.2) = 
     by_cases h3 : m.clientSecret.isEmpty <;> by_cases h4 : m.dcClientId.isEmpty <;>
     by_cases h5 : m.dcClientSecret.isEmpty <;>
     simp [h1, h2, h3, h4, h5]
+
+/-! ### `lookup` does not depend on the order of distinctly named parameters -/
+
+theorem lookup_of_not_mem (n : Bytes) : ∀ (l : List (Bytes × Bytes)),
+    n ∉ l.map Prod.fst → lookup n l = []
+  | [], _ => rfl
+  | p :: l, h => by
+    simp only [List.map_cons, List.mem_cons, not_or] at h
+    simp only [lookup, if_neg (Ne.symm h.1)]
+    exact lookup_of_not_mem n l h.2
+
+theorem lookup_of_mem (n v : Bytes) : ∀ (l : List (Bytes × Bytes)),
+    (l.map Prod.fst).Nodup → (n, v) ∈ l → lookup n l = v
+  | [], _, h => by cases h
+  | p :: l, hnd, h => by
+    simp only [List.map_cons, List.nodup_cons] at hnd
+    simp only [List.mem_cons] at h
+    simp only [lookup]
+    rcases h with h | h
+    · subst h; simp
+    · have : p.1 ≠ n := by
+        intro hp
+        apply hnd.1
+        rw [hp]
+        exact List.mem_map.mpr ⟨(n, v), h, rfl⟩
+      rw [if_neg this]
+      exact lookup_of_mem n v l hnd.2 h
+
+theorem lookup_perm (n : Bytes) (l₁ l₂ : List (Bytes × Bytes)) (hp : l₁.Perm l₂)
+    (hnd : (l₂.map Prod.fst).Nodup) : lookup n l₁ = lookup n l₂ := by
+  have hnd₁ : (l₁.map Prod.fst).Nodup := (hp.map Prod.fst).nodup_iff.mpr hnd
+  by_cases hm : n ∈ l₂.map Prod.fst
+  · obtain ⟨q, hq, hqn⟩ := List.mem_map.mp hm
+    obtain ⟨a, v⟩ := q
+    simp only at hqn
+    subst hqn
+    rw [lookup_of_mem a v l₂ hnd hq, lookup_of_mem a v l₁ hnd₁ (hp.mem_iff.mpr hq)]
+  · have hm₁ : n ∉ l₁.map Prod.fst := fun h => hm ((hp.map Prod.fst).mem_iff.mp h)
+    rw [lookup_of_not_mem n l₂ hm, lookup_of_not_mem n l₁ hm₁]
+
+/-! ### Validated metadata yields well-formed parameters -/
+
+theorem idChar_ne_dq {c : UInt8} (h : idChar c = true) : c ≠ dq := by
+  intro hc; subst hc; revert h; decide
+
+theorem field_ok {f : Bytes} (h : (!f.isEmpty && !matchId f) = false) : NoQuote f := by
+  intro c hc
+  cases f with
+  | nil => cases hc
+  | cons a t =>
+    simp only [matchId, List.isEmpty_cons, Bool.not_false, Bool.true_and,
+      Bool.not_eq_eq_eq_not] at h
+    exact idChar_ne_dq (List.all_eq_true.mp h c hc)
+
+theorem valid_fields {m : Meta} (h : validate m = none) :
+    NoQuote m.clientId ∧ NoQuote m.clientSecret ∧ NoQuote m.dcClientId ∧ NoQuote m.dcClientSecret := by
+  unfold validate at h
+  split at h; · cases h
+  split at h; · cases h
+  split at h; · cases h
+  split at h; · cases h
+  split at h; · cases h
+  split at h; · cases h
+  rename_i _ _ h1 h2 h3 h4
+  exact ⟨field_ok (by simpa using h1), field_ok (by simpa using h2), field_ok (by simpa using h3),
+    field_ok (by simpa using h4)⟩
+
+theorem names_nodup (url : Bytes) (m : Meta) : ((params url m).map Prod.fst).Nodup := by
+  unfold params
+  by_cases h1 : m.clientId.isEmpty <;> by_cases h2 : m.useIdToken <;>
+    by_cases h3 : m.clientSecret.isEmpty <;> by_cases h4 : m.dcClientId.isEmpty <;>
+    by_cases h5 : m.dcClientSecret.isEmpty <;>
+    simp only [h1, h2, h3, h4, h5, if_true, if_false, Bool.false_eq_true, List.append_nil,
+      List.cons_append, List.nil_append, List.map_cons, List.map_nil] <;> decide
+
+theorem mem_params_wf {url : Bytes} {m : Meta} (hu : NoQuote url) (hv : validate m = none) :
+    ∀ p ∈ params url m, NameTok p.1 ∧ NoQuote p.2 := by
+  obtain ⟨v1, v2, v3, v4⟩ := valid_fields hv
+  have t1 : NameTok nResourceMetadata := by unfold NameTok; decide
+  have t2 : NameTok nClientId := by unfold NameTok; decide
+  have t3 : NameTok nUseIdToken := by unfold NameTok; decide
+  have t4 : NameTok nClientSecret := by unfold NameTok; decide
+  have t5 : NameTok nDcClientId := by unfold NameTok; decide
+  have t6 : NameTok nDcClientSecret := by unfold NameTok; decide
+  have t7 : NoQuote litTrue := by unfold NoQuote; decide
+  intro p hp
+  unfold params at hp
+  simp only [List.mem_append, List.mem_singleton] at hp
+  rcases hp with ((((hp | hp) | hp) | hp) | hp) | hp
+  · subst hp; exact ⟨t1, hu⟩
+  · split at hp
+    · cases hp
+    · simp only [List.mem_singleton] at hp; subst hp; exact ⟨t2, v1⟩
+  · split at hp
+    · simp only [List.mem_singleton] at hp; subst hp; exact ⟨t3, t7⟩
+    · cases hp
+  · split at hp
+    · cases hp
+    · simp only [List.mem_singleton] at hp; subst hp; exact ⟨t4, v2⟩
+  · split at hp
+    · cases hp
+    · simp only [List.mem_singleton] at hp; subst hp; exact ⟨t5, v3⟩
+  · split at hp
+    · cases hp
+    · simp only [List.mem_singleton] at hp; subst hp; exact ⟨t6, v4⟩
+
+/-- What the six accessors read from the parameter list `build` emits. -/
+theorem lookup_params (url : Bytes) (m : Meta) :
+    lookup nResourceMetadata (params url m) = url ∧
+    lookup nClientId (params url m) = m.clientId ∧
+    (lookup nUseIdToken (params url m) == litTrue) = m.useIdToken ∧
+    lookup nClientSecret (params url m) = m.clientSecret ∧
+    lookup nDcClientId (params url m) = m.dcClientId ∧
+    lookup nDcClientSecret (params url m) = m.dcClientSecret := by
+  unfold params
+  by_cases h1 : m.clientId = [] <;> by_cases h2 : m.useIdToken <;>
+    by_cases h3 : m.clientSecret = [] <;> by_cases h4 : m.dcClientId = [] <;>
+    by_cases h5 : m.dcClientSecret = [] <;>
+    simp [List.isEmpty_iff, h1, h2, h3, h4, h5, lookup,
+      nResourceMetadata, nClientId, nUseIdToken, nClientSecret, nDcClientId, nDcClientSecret, litTrue]
+
+theorem sepParams_seps (url : Bytes) (m : Meta) : ∀ p ∈ sepParams url m, SepRun p.1 := by
+  have s1 : SepRun [sp] := by unfold SepRun; decide
+  have s2 : SepRun [comma, sp] := by unfold SepRun; decide
+  intro p hp
+  unfold sepParams at hp
+  simp only [List.mem_append, List.mem_singleton] at hp
+  rcases hp with ((((hp | hp) | hp) | hp) | hp) | hp
+  · subst hp; exact s1
+  all_goals
+    split at hp
+    all_goals first | cases hp; done | (simp only [List.mem_singleton] at hp; subst hp; exact s2)
+
+/-! ### The property -/
+
+/-- A client reading header `h` recovers exactly the advertised resource-metadata URL, client id,
+id-token flag, client secret, device-code client id and device-code client secret (an absent
+parameter reads as the empty string / `false`). -/
+def Recovers (h url : Bytes) (m : Meta) : Prop :=
+  parseResourceMetadataURL h = url ∧
+  parseClientID h = m.clientId ∧
+  parseUseIDTokenAsBearer h = m.useIdToken ∧
+  parseClientSecret h = m.clientSecret ∧
+  parseDeviceCodeClientID h = m.dcClientId ∧
+  parseDeviceCodeClientSecret h = m.dcClientSecret
+
+/-- **parse_any_order** — for every metadata value that passes `validate` (any subset of the
+optional fields empty) and every metadata URL without a double quote: ANY challenge that carries
+exactly the advertised parameters — in any order, after any scheme token, separated by any
+non-empty runs of spaces/commas — is read back exactly. -/
+theorem parse_any_order (scheme url : Bytes) (m : Meta) (ps : List (Bytes × Bytes × Bytes))
+    (hs : NameTok scheme) (hseps : ∀ p ∈ ps, SepRun p.1)
+    (hperm : (ps.map (·.2)).Perm (params url m))
+    (hu : NoQuote url) (hv : validate m = none) :
+    Recovers (scheme ++ renderG ps) url m := by
+  have hps : ∀ p ∈ ps, SepRun p.1 ∧ NameTok p.2.1 ∧ NoQuote p.2.2 := by
+    intro p hp
+    have hm : p.2 ∈ params url m := hperm.mem_iff.mp (List.mem_map.mpr ⟨p, hp, rfl⟩)
+    exact ⟨hseps p hp, mem_params_wf hu hv p.2 hm⟩
+  have key : ∀ n, parseQuoted (scheme ++ renderG ps) n = lookup n (params url m) := by
+    intro n
+    rw [parse_challenge scheme n ps hs hps, lookup_perm n _ _ hperm (names_nodup url m)]
+  obtain ⟨l1, l2, l3, l4, l5, l6⟩ := lookup_params url m
+  unfold Recovers parseResourceMetadataURL parseClientID parseUseIDTokenAsBearer parseClientSecret
+    parseDeviceCodeClientID parseDeviceCodeClientSecret
+  simp only [key]
+  exact ⟨l1, l2, l3, l4, l5, l6⟩
+
+/-- **parse_build** — the headline: parsing the header the server builds recovers exactly what
+was advertised, for every valid metadata value and every quote-free metadata URL. -/
+theorem parse_build (url : Bytes) (m : Meta) (hu : NoQuote url) (hv : validate m = none) :
+    Recovers (build url m) url m := by
+  rw [build_eq_render]
+  refine parse_any_order bearer url m (sepParams url m) (by unfold NameTok; decide)
+    (sepParams_seps url m) ?_ hu hv
+  rw [sepParams_map]
+
+/-! ### Non-vacuity -/
+
+/-- "https://h/a" -/
+def exUrl : Bytes := [104, 116, 116, 112, 115, 58, 47, 47, 104, 47, 97]
+/-- F28's input class: client id absent, device-code client id present. -/
+def exMeta : Meta :=
+  { resource := [104, 116, 116, 112, 115, 58, 47, 47, 104, 47, 97], nAuthServers := 1, clientId := [], useIdToken := false, clientSecret := [],
+    dcClientId := [100, 101, 118, 45, 49], dcClientSecret := [115, 51, 99, 114, 51, 116] }
+
+example : NoQuote exUrl ∧ validate exMeta = none := by unfold NoQuote; decide
+example : parseClientID (build exUrl exMeta) = [] ∧
+    parseDeviceCodeClientID (build exUrl exMeta) = [100, 101, 118, 45, 49] ∧
+    parseClientSecret (build exUrl exMeta) = [] := by decide
+
+/-- A legal URL ending in `,client_id=` (the closing quote of resource_metadata must not complete
+a `client_id="` match). -/
+def exUrl2 : Bytes := [104, 116, 116, 112, 115, 58, 47, 47, 104, 47, 97, 44, 99, 108, 105, 101, 110, 116, 95, 105, 100, 61]
+def exMeta2 : Meta := { exMeta with clientId := [114, 101, 97, 108, 46, 105, 100], useIdToken := true }
+example : NoQuote exUrl2 ∧ validate exMeta2 = none := by unfold NoQuote; decide
+example : parseClientID (build exUrl2 exMeta2) = [114, 101, 97, 108, 46, 105, 100] ∧
+    parseResourceMetadataURL (build exUrl2 exMeta2) = exUrl2 ∧
+    parseUseIDTokenAsBearer (build exUrl2 exMeta2) = true := by decide
+
+/-- A reordered challenge with other separators satisfies the hypotheses of `parse_any_order`. -/
+example : ([([sp, sp], nDcClientId, [100, 101, 118, 45, 49]), ([comma], nResourceMetadata, exUrl),
+      ([comma, sp], nDcClientSecret, [115, 51, 99, 114, 51, 116])].map (·.2)).Perm (params exUrl exMeta) := by decide
+
+/-- The `NoQuote url` hypothesis is needed: a raw double quote in the URL truncates it. -/
+example : parseResourceMetadataURL (build [104, dq, 105] exMeta) = [104] := by decide
+
+/-- `validate` rejects a quote in a field (so the hypothesis is not vacuous either way). -/
+example : validate { exMeta with clientId := [97, dq] } = some .clientId := by decide
 
 end Vgi.Props.C28
